@@ -179,11 +179,48 @@ def sympy_to_python_fn(
         # `def f(A: float, A: float)` is a SyntaxError, the whole module could not be used
         msg = f"Unable to write '{fn_name}' as a function of {args}: an argument is repeated"
         raise ValueError(msg)
+    body = _pycode(expr, fully_qualified_modules=True, full_prec=False)
+    # A parameter called like a function or module the body uses (abs, max, math, ...)
+    # would shadow it inside the function: such parameters get a name of their own.
+    # The function is called with positional arguments, so only the body has to follow.
+    called = _called_names(body)
+    if clash := [arg for arg in args if arg in called]:
+        taken = set(args) | called | {i.name for i in expr.free_symbols}  # type: ignore
+        renamed = {}
+        for arg in clash:
+            new = f"{arg}_"
+            while new in taken:
+                new = f"{new}_"
+            taken.add(new)
+            renamed[arg] = new
+        expr = cast(
+            sympy.Expr,
+            expr.xreplace({sympy.Symbol(k): sympy.Symbol(v) for k, v in renamed.items()}),
+        )
+        args = [renamed.get(arg, arg) for arg in args]
+        body = _pycode(expr, fully_qualified_modules=True, full_prec=False)
     fn_args = ", ".join(f"{i}: float" for i in args)
 
     return f"""def {fn_name}({fn_args}) -> float:
-    return {_pycode(expr, fully_qualified_modules=True, full_prec=False)}
+    return {body}
     """.replace("math.factorial", "scipy.special.factorial")
+
+
+def _called_names(code: str) -> set[str]:
+    """Names a piece of generated Python code calls, or reaches into as modules."""
+    import ast
+
+    names = set()
+    for node in ast.walk(ast.parse(code, mode="eval")):
+        if isinstance(node, ast.Call) and isinstance(node.func, ast.Name):
+            names.add(node.func.id)
+        elif isinstance(node, ast.Attribute):
+            root = node
+            while isinstance(root, ast.Attribute):
+                root = root.value
+            if isinstance(root, ast.Name):
+                names.add(root.id)
+    return names
 
 
 def stoichiometries_to_sympy(
